@@ -16,6 +16,7 @@ package proxyutil
 
 import (
 	"errors"
+	"fmt"
 	"net/http"
 	"strings"
 	"testing"
@@ -52,6 +53,36 @@ func TestNewResponse(t *testing.T) {
 	}
 	if got, want := res.Request, req; got != want {
 		t.Errorf("res.Request: got %v, want %v", got, want)
+	}
+}
+
+func TestNewResponseProto(t *testing.T) {
+	tests := []struct {
+		proto        string
+		major, minor int
+		want         string
+	}{
+		{"HTTP/1.1", 1, 1, "HTTP/1.1"},
+		{"HTTP/1.0", 1, 0, "HTTP/1.0"},
+		{"HTTP/2.0", 2, 0, "HTTP/1.1"},
+		{"HTTP/1.7", 1, 7, "HTTP/1.1"},
+		{"HTTP/0.9", 0, 9, "HTTP/1.1"},
+		{"", 0, 0, "HTTP/1.1"},
+	}
+	for _, tc := range tests {
+		req, err := http.NewRequest(http.MethodGet, "http://www.example.com", http.NoBody)
+		if err != nil {
+			t.Fatalf("http.NewRequest(): got %v, want no error", err)
+		}
+		req.Proto, req.ProtoMajor, req.ProtoMinor = tc.proto, tc.major, tc.minor
+
+		res := NewResponse(500, nil, req)
+		if got := res.Proto; got != tc.want {
+			t.Errorf("request %q: res.Proto: got %q, want %q", tc.proto, got, tc.want)
+		}
+		if got := fmt.Sprintf("HTTP/%d.%d", res.ProtoMajor, res.ProtoMinor); got != tc.want {
+			t.Errorf("request %q: res.ProtoMajor.ProtoMinor: got %q, want %q", tc.proto, got, tc.want)
+		}
 	}
 }
 
